@@ -141,6 +141,28 @@ NaEff(ms, t, c, v, keepAll) ==
                         !.race = ms.race \/ ~ok]
   IN [ms1 EXCEPT !.mem[c] = Prune(ms1, c, keepAll)]
 
+\* precise reader/writer discipline for shared non-atomic cells (c is a tuple <<name, index>>):
+\* a read must have seen the last write; a write must have seen the last write and every read
+\* since then.  Reads of different threads are not ordered with each other, so each reader
+\* leaves its marker on its own pseudo-location <<name, index, reader>>.
+RdLoc(c, r) == <<c[1], c[2], r>>
+NaReadEff(ms, t, c) ==
+  LET m0 == WithLoc(WithLoc(ms, c, 0), RdLoc(c, t), 0)
+      ok == VGet(m0.cur[t], c) = Last(m0, c).ts
+      r == RdLoc(c, t)
+      ts == Last(m0, r).ts + 1
+  IN [m0 EXCEPT !.cur[t] = VSet(m0.cur[t], r, ts), !.acq[t] = VSet(m0.acq[t], r, ts),
+                !.mem[r] = << [ts |-> ts, val |-> 0, view |-> EmptyView] >>,
+                !.race = m0.race \/ ~ok]
+NaWriteEff(ms, t, c, readers) ==
+  LET m0 == WithLoc(ms, c, 0)
+      ok == /\ VGet(m0.cur[t], c) = Last(m0, c).ts
+            /\ \A r \in readers : RdLoc(c, r) \in DOMAIN m0.mem => VGet(m0.cur[t], RdLoc(c, r)) = Last(m0, RdLoc(c, r)).ts
+      ts == Last(m0, c).ts + 1
+  IN [m0 EXCEPT !.cur[t] = VSet(m0.cur[t], c, ts), !.acq[t] = VSet(m0.acq[t], c, ts),
+                !.mem[c] = << [ts |-> ts, val |-> 0, view |-> EmptyView] >>,
+                !.race = m0.race \/ ~ok]
+
 \* thread creation / join edges
 SpawnEff(ms, parent, child) ==
   LET ms1 == WithThread(ms, child)
